@@ -213,6 +213,63 @@ def run_replay_search(cmd_args, seed):
     return None, out
 
 
+_pinned_trees = {}
+
+
+def pinned_tree(commit):
+    """Export the tree of `commit` (the tree the baseline was pinned on) of the checked repository to a scratch
+    directory (once per process); None if that is not possible."""
+    if not commit:
+        return None
+    if commit in _pinned_trees:
+        return _pinned_trees[commit]
+    dst = None
+    try:
+        top = subprocess.run(["git", "-C", core.REPO, "rev-parse", "--show-toplevel"], capture_output=True, text=True)
+        if top.returncode == 0:
+            d = os.path.join("/tmp", f"vx_pinned_{commit[:12]}_{os.getpid()}")
+            shutil.rmtree(d, ignore_errors=True)
+            os.makedirs(d)
+            a = subprocess.Popen(["git", "-C", top.stdout.strip(), "archive", commit], stdout=subprocess.PIPE)
+            t = subprocess.run(["tar", "-x", "-C", d], stdin=a.stdout)
+            a.wait()
+            if a.returncode == 0 and t.returncode == 0:
+                dst = d
+                import atexit
+                atexit.register(shutil.rmtree, d, True)
+    except Exception:
+        dst = None
+    _pinned_trees[commit] = dst
+    return dst
+
+
+def dropped_hints_inessential(u, fname):
+    """The hints of function `fname` that lost their anchor on the checked tree: does the PINNED text of the function
+    still verify when exactly these hints are left out?  If yes they were not needed for the proof, so their loss
+    cannot be the reason of a failure on the checked tree.  Returns (True/False/None, note)."""
+    keys = u.gen.dropped_hint_keys.get(fname)
+    base = load_baseline(u.unit, u.model) or {}
+    tree = pinned_tree(base.get("repo_commit"))
+    if not keys or not tree:
+        return None, "no pinned tree available"
+    try:
+        g = core.build(u.unit, u.model, repo=tree, tag=f"_ess{abs(hash(fname)) % 100000}", force_drop={fname: keys})
+    except core.UnitError as e:
+        return None, f"pinned tree could not be extracted: {e}"
+    r = core.run_verus(g.path, rlimit=60, verify_function=verus_fn_pattern(g, fname), timeout=600)
+    try:
+        os.remove(g.path)
+    except OSError:
+        pass
+    if r.fatal:
+        return None, "verus on the pinned text: " + r.fatal[:300]
+    rows = [row for row in r.rows if row.get("mode:") == "exec" or True]
+    if not rows:
+        return None, "no obligation generated on the pinned text"
+    ok = all(row["success"] for row in rows)
+    return ok, ("the pinned text verifies without the dropped hint(s) " + "; ".join(keys) if ok else "the pinned text needs the dropped hint(s)")
+
+
 def write_replay(pid, u, f, extra):
     os.makedirs(os.path.join(REPLAY_DIR, pid), exist_ok=True)
     name = re.sub(r"[^A-Za-z0-9_.-]+", "_", f"{u.unit}_{u.model}.{f['name']}")
@@ -284,6 +341,33 @@ def run_property(pid, tier, seed, t0, pin=False):
             undecided.append(f"{u.unit}@{u.model}: {u.error}")
     if undecided:
         msg = "; ".join(undecided)
+        # a unit could not even be built / type-checked on this tree (API change mirrored by a facade, lost anchor):
+        # the native replay drivers registered for the property are still run against the real code; a failing input
+        # found there is a demonstrated violation
+        if p.get("replays") and not pin:
+            seen_cmds, hit = [], None
+            for cmd in p["replays"].values():
+                if cmd in seen_cmds:
+                    continue
+                seen_cmds.append(cmd)
+                found, out = run_replay_search(cmd, seed)
+                if found:
+                    hit = (cmd, out)
+                    break
+            if hit:
+                cmd, out = hit
+                os.makedirs(os.path.join(REPLAY_DIR, pid), exist_ok=True)
+                path = os.path.join(REPLAY_DIR, pid, "undecided_" + re.sub(r"[^A-Za-z0-9_.-]+", "_", "_".join(cmd)) + ".json")
+                with open(path, "w") as fh:
+                    json.dump({"property": pid, "engine": "E1 verus (undecided) + native replay driver",
+                               "obligation": "not decidable on this tree: " + msg[:1500],
+                               "failing_input_found": True, "replay_cmd": ["nuts-replay"] + cmd, "replay_output": out[-4000:]}, fh, indent=1)
+                print(f"  verifier undecided ({msg[:200]}), but the native driver {' '.join(cmd)} found a failing input on the real code")
+                print(f"VIOLATION property={pid} replay={path}")
+                write_evidence(pid, {"property_id": pid, "tier": tier, "seed": seed, "level": "other",
+                                     "coverage": {"explanation": "obligations UNDECIDED (" + msg[:1200] + "); violation demonstrated by native driver " + " ".join(cmd)},
+                                     "wall_s": round(time.time() - t0, 2), "violations": 1})
+                return 1
         print(f"UNDECIDED property={pid} reason={msg[:1500]}")
         write_undecided(pid, tier, seed, msg, time.time() - t0)
         return 2
@@ -363,6 +447,20 @@ def run_property(pid, tier, seed, t0, pin=False):
             elif not rejected:
                 undecided.append(f"vacuity guard tripped for {key}: {detail}")
 
+    # ---- thorough tier: every native replay driver registered for the property is run against the real code as well
+    # (drivers search their fault / parameter space for a failing input; a hit is a demonstrated violation)
+    native_runs = []
+    native_hits = []
+    if tier == "thorough" and p.get("replays"):
+        seen_cmds = []
+        for cmd in p["replays"].values():
+            if cmd in seen_cmds:
+                continue
+            seen_cmds.append(cmd)
+            found, out = run_replay_search(cmd, seed)
+            native_runs.append({"driver": " ".join(cmd), "failing_input_found": found, "output_tail": out[-600:]})
+            if found:
+                native_hits.append((cmd, out))
     # ---- thorough tier: two further solver seeds per unit; instability is reported, never an alarm
     seed_runs = []
     if tier == "thorough" and not undecided:
@@ -407,8 +505,14 @@ def run_property(pid, tier, seed, t0, pin=False):
         for u in runs:
             names = sorted({ob["name"] for ob in u.obs if ob["kind"] in ("fn", "lemma") and ob["success"]})
             with open(baseline_path(u.unit, u.model), "w") as f:
+                try:
+                    _st = subprocess.run(["git", "-C", core.REPO, "status", "--porcelain", "--untracked-files=no"], capture_output=True, text=True)
+                    _hd = subprocess.run(["git", "-C", core.REPO, "rev-parse", "HEAD"], capture_output=True, text=True)
+                    pinned_commit = _hd.stdout.strip() if (_hd.returncode == 0 and _st.returncode == 0 and not _st.stdout.strip()) else None
+                except Exception:
+                    pinned_commit = None
                 shape = {fn["key"]: [fn.get("closures_without_contract", 0), fn.get("loops", 0)] for fn in u.gen.fns}
-                json.dump({"obligations": names, "anchor_lines": u.gen.anchor_lines, "closure_sigs": u.gen.closure_sigs, "loop_sigs": u.gen.loop_sigs, "shape": shape,
+                json.dump({"obligations": names, "anchor_lines": u.gen.anchor_lines, "closure_sigs": u.gen.closure_sigs, "loop_sigs": u.gen.loop_sigs, "shape": shape, "repo_commit": pinned_commit,
                            "locals": {fn["key"]: fn.get("locals", []) for fn in u.gen.fns if fn.get("has_contract")}}, f, indent=1)
         undecided = [x for x in undecided if "allow-list" not in x]
 
@@ -466,11 +570,15 @@ def run_property(pid, tier, seed, t0, pin=False):
         # a loop or a non-trivial closure that the pinned tree did not have carries no invariant / contract: the
         # verifier then knows nothing about it and the failure says "needs annotation", not "property broken"
         # (DESIGN 11.3); it counts only together with a failing input on the real code
+        hint_note = None
         if f["name"] in set(u.gen.hint_dropped_fns) and not found:
-            # a hint, loop contract or closure contract of this function lost its anchor (the statement / loop / closure it
-            # belonged to is gone) and was dropped: the proof may fail for lack of the hint, not because the property is broken
-            undecided.append(f"{ob_id}: fails after a proof hint / loop contract / closure contract lost its anchor and was dropped, and no failing input was found")
-            continue
+            # a proof hint of this function lost its anchor (the statement it belonged to is gone) and was dropped: the
+            # proof may fail for lack of the hint, not because the property is broken - unless the hint was not needed:
+            # the pinned text of the function is re-verified WITHOUT exactly these hints
+            ok, hint_note = dropped_hints_inessential(u, f["name"])
+            if not ok:
+                undecided.append(f"{ob_id}: fails after a proof hint lost its anchor and was dropped ({hint_note}), and no failing input was found")
+                continue
         if f["name"] in set(u.gen.renamed_fns) and not found:
             undecided.append(f"{ob_id}: fails after its ghost text was adapted to renamed locals (R1.renamedlocal) and no failing input was found")
             continue
@@ -488,6 +596,7 @@ def run_property(pid, tier, seed, t0, pin=False):
                 undecided.append(f"{ob_id}: fails, but the function gained {what.strip()} since the pinned tree and no failing input was found (needs annotation)")
                 continue
         extra = {"hints_dropped_because_their_anchor_statement_disappeared": int(u.gen.rewrites.get("R1.droppedhint", 0)),
+                 "dropped_hints_checked_inessential_on_pinned_text": hint_note,
                  "hints_reattached_by_similarity": int(u.gen.rewrites.get("R1.fuzzyanchor", 0)),
                  "failing_input_found": bool(found), "replay_cmd": (["nuts-replay"] + rp) if rp else None, "replay_output": out[-4000:],
                  "baseline": "discharged on the pinned tree" if was_discharged else "never discharged"}
@@ -505,6 +614,17 @@ def run_property(pid, tier, seed, t0, pin=False):
         nviol += 1
         lines.append(f"VIOLATION property={pid} replay={path}" + ("" if k.get("concrete") else " no-failing-input-found"))
         rc = 1
+    for (cmd, out) in native_hits:
+        if any(" ".join(cmd) in ln for ln in lines):
+            continue
+        os.makedirs(os.path.join(REPLAY_DIR, pid), exist_ok=True)
+        path = os.path.join(REPLAY_DIR, pid, "native_" + re.sub(r"[^A-Za-z0-9_.-]+", "_", "_".join(cmd)) + ".json")
+        with open(path, "w") as fh:
+            json.dump({"property": pid, "engine": "native replay driver (thorough tier)", "obligation": "driver " + " ".join(cmd),
+                       "failing_input_found": True, "replay_cmd": ["nuts-replay"] + cmd, "replay_output": out[-4000:]}, fh, indent=1)
+        nviol += 1
+        rc = 1
+        lines.append(f"VIOLATION property={pid} replay={path}")
     for (k, u, f) in known_hits:
         print(f"KNOWN-FINDING: property={pid} {k.get('what','')} [{k.get('id','')}]")
     for ln in lines:
@@ -581,6 +701,7 @@ def run_property(pid, tier, seed, t0, pin=False):
         "known_findings_hit": [k.get("id") for (k, _, _) in known_hits],
         "unstable": unstable,
         "seed_runs": seed_runs,
+        "native_driver_runs": native_runs,
         "undecided": undecided,
         "failures_carrying_other_properties": sorted(set(other_fail)),
         "not_decided_by_this_check": p.get("not_decided", []),
